@@ -119,6 +119,12 @@ class CondNorm:
                     elif n["k"] in ("bin", "un") and n.get("op") in ("=", "+=", "-=", "*=", "/=", "++", "--"):
                         ok = False
                     t = f.var_token(x)
+                    if t and t.startswith("F:"):
+                        # a field of THIS object needs a const member function (nothing in it can write the field); a field of a local
+                        # or parameter object is covered by that variable's own token
+                        rr = f.root_ref(x)
+                        if rr is not None and rr >= 0 and f.nodes[rr]["k"] == "ref" and f.nodes[rr].get("dk") in ("local", "param", "binding"):
+                            t = None
                     if t and (t in written or (t.startswith("F:") and not f.d.get("const"))):
                         ok = False
                     if not ok:
@@ -265,28 +271,42 @@ class CondNorm:
         out = [self._fact(i, pol)]
         if k == "ref" and n["dk"] == "local":
             init = self.single_init().get(n.get("decl"))
-            if init is not None and self._stale_after(init):
+            if init is not None and self._stale_after(init, i):
                 init = None       # what the initialiser read has been written since: the local no longer states a fact about the present
             if init is not None and f.nodes[f.strip(init)].get("tw") in ("b", None) or (
                     init is not None and n.get("tw") == "b"):
                 out += self.decompose(init, pol, depth + 1)
         return out
 
-    def _stale_after(self, init):
-        """Is a variable read by initialiser `init` written by a later node of the function (source order)?"""
+    def _stale_after(self, init, use=None):
+        """Can a variable read by initialiser `init` have been written between the initialisation and the use?  Writes that lie, in
+        source order, between the two count; so do writes anywhere inside a loop that contains the use but not the initialiser (they
+        run before the next evaluation of the use)."""
         f = self.fn
         cache = self.__dict__.setdefault("_stale", {})
-        if init not in cache:
+        key = (init, use)
+        if key not in cache:
             vs = self.vars_of(init)
             stale = False
             if vs:
                 last = max(f.walk(init))
-                for j in range(last + 1, len(f.nodes)):
-                    if f.nodes[j]["k"] != "decl" and set(node_writes(f, j)) & vs:
+                wr = cache.get(("w", init))
+                if wr is None:
+                    wr = [j for j in range(last + 1, len(f.nodes)) if f.nodes[j]["k"] != "decl" and set(node_writes(f, j)) & vs]
+                    cache[("w", init)] = wr
+                if use is None:
+                    stale = bool(wr)
+                elif wr:
+                    if any(j < use for j in wr):
                         stale = True
-                        break
-            cache[init] = stale
-        return cache[init]
+                    else:
+                        LOOPS = ("for", "while", "do", "rangefor")
+                        outer = [a for a in f.ancestors(use) if f.nodes[a]["k"] in LOOPS and a not in set(f.ancestors(init))]
+                        if outer:
+                            top = outer[-1]
+                            stale = any(top in set(f.ancestors(j)) for j in wr)
+            cache[key] = stale
+        return cache[key]
 
     def _fact(self, i, pol):
         k, flip = self.key(i)
@@ -570,6 +590,8 @@ class Flow:
                         continue
                     for k2_, p2_ in self._helper_facts(node_, p_):
                         add_(k_, k2_, p2_)
+                    for k2_, p2_ in self._search_facts(node_, p_):
+                        add_(k_, k2_, p2_)
                 facts = facts + [e_ for e_ in extra if e_ not in facts]
             elif t["cls"] == "SwitchStmt":
                 s = blk["succ"][j]
@@ -582,6 +604,60 @@ class Flow:
                     facts = [(k, "default")]
         self._edge_facts[key] = facts
         return facts
+
+    def _search_facts(self, node, pol):
+        """`it = std::find_if(b, e, pred); if (it != e)`: on the found edge pred(*it) holds.  The predicate is a closure of this
+        program with a single `return <expr>;`; its facts are contributed with the parameter replaced by (*it).  Likewise
+        `it = std::find(b, e, v)`: (*it == v) on the found edge."""
+        f = self.fn
+        n = f.nodes[f.strip(node)]
+        if n["k"] == "bin" and n.get("op") in ("==", "!="):
+            sides = (n["l"], n["r"])
+        elif n["k"] == "call" and n.get("op") in ("==", "!=") and ("recv" in n and len(n.get("args", [])) == 1 or len(n.get("args", [])) == 2):
+            sides = (n["recv"], n["args"][0]) if "recv" in n else (n["args"][0], n["args"][1])
+        else:
+            return []
+        # decompose() canonicalised `!=`: the fact's key is the == form; pol False means 'not at the end' = found
+        if pol is not False:
+            return []
+        out = []
+        for x, y in (sides, sides[::-1]):
+            xn = f.nodes[f.strip(x)]
+            yn = f.nodes[f.strip(y)]
+            if xn["k"] != "ref" or xn.get("dk") != "local" or not (yn["k"] == "call" and yn.get("cname") in ("end", "cend")):
+                continue
+            init = self.cn.single_init().get(xn.get("decl"))
+            if init is None:
+                continue
+            c = f.nodes[f.strip(init)]
+            if c["k"] != "call" or len(c.get("args", [])) != 3:
+                continue
+            cal = (c.get("callee") or c.get("cname") or "")
+            it = xn["name"]
+            if re.search(r"\bfind_if(_not)?\b", cal):
+                ln = f.nodes[f.strip(c["args"][2])]
+                lusr = ln.get("lusr")
+                if lusr is None and ln["k"] == "ref":
+                    i2 = self.cn.single_init().get(ln.get("decl"))
+                    lusr = f.nodes[f.strip(i2)].get("lusr") if i2 is not None else None
+                h = self.prog.fns.get(lusr) if lusr else None
+                if h is None or len(h.params) != 1:
+                    continue
+                rets = [i for i, m in enumerate(h.nodes) if m["k"] == "return" and "val" in m]
+                if len(rets) != 1 or any(m["k"] in ("decl", "if", "for", "while", "switch") for m in h.nodes):
+                    continue
+                want = "find_if_not" not in cal
+                try:
+                    sub = CondNorm(h, self.prog).decompose(h.nodes[rets[0]]["val"], want)
+                except Exception:
+                    continue
+                pn = h.params[0]["name"]
+                for k2, p2 in sub:
+                    if isinstance(k2, str):
+                        out.append((re.sub(r"(?<![\w.>])%s(?![\w(])" % re.escape(pn), "(*%s)" % it, k2), p2))
+            elif re.search(r"\bfind\b", cal):
+                out.append(("(*%s == %s)" % (it, f.text(c["args"][2])), True))
+        return out
 
     def _helper_facts(self, node, pol):
         f = self.fn
